@@ -81,10 +81,8 @@ def signature_structure_problems(doc, node_name, node_id, id_attr="ID"):
     hits = [e for e in root.iter(tag) if e.get(id_attr) == node_id]
     if len(hits) != 1:
         return ["%d elements %s carry %s=%r" % (len(hits), local, id_attr, node_id)]
-    # any element at all (other names) carrying the same identifier is a duplicate ID
-    dup = [e for e in root.iter() if e.get(id_attr) == node_id and e is not hits[0]]
-    if dup:
-        probs.append("identifier %r also carried by %s" % (node_id, dup[0].tag))
+    # (the tool registers the ID attribute on elements of this name only, so an element of another
+    # name carrying the same value is no ambiguity for it and is not demanded by the property)
     el = hits[0]
     sigtag = "{%s}Signature" % DS
     direct = [c for c in el if c.tag == sigtag]
